@@ -590,8 +590,9 @@ def monitor (d : ToolD) (ci : CallIn) (o : Obs) : Option String :=
       | some (p, a, b) => some s!"C16: result_carries_exact_integers: the structured content carries an integer that differs from the one in the handler's output ({showPath p}: output {showDec a}, returned {showDec b}{viaF64 a b}); every integer a Go integer type holds, int64 or uint64 — [-2^63, 2^64) — must come back unchanged"
       | none => none
     | _, _ => none
-  else if io.inv == "1" && o.inv == "0" && (match ci.args with | .val v => hasU64 v | .absent => false) then
-    some "C16: invoked_iff_valid_after_defaults: arguments valid after defaults (and decodable) but the handler did not run; they hold an integer in (MaxInt64, MaxUint64] — a value of a uint64 member — which the server's decode must keep exact: [-2^63, 2^64) is the range Go integer types hold"
+  else if io.inv == "1" && o.inv == "0" && (match ci.args with | .val v => hasU64 v | .absent => false) &&
+      sameObs o (obsOf (call (refEnv lossy63) t ci.h ci.args)) then
+    some "C16: invoked_iff_valid_after_defaults: arguments valid after defaults (and decodable) but the handler did not run; they hold an integer in (MaxInt64, MaxUint64] — a value of a uint64 member — and the call is answered as by a decode that keeps only int64 exact (the integer re-encoded through float64 fits no Go integer type); the server's decode must keep [-2^63, 2^64) exact"
   else if big && sameObs o unrep then
     some "C16/F9: integer with |n| > 2^53 rounded to float64 by applySchema's JSON round trip (handler input, validity verdict or structured content differ from the exact value)"
   else if o.inv != io.inv then
